@@ -423,6 +423,8 @@ _ADD6 = {
  'C18': ' A scenario child that burns 20 s of its own CPU time (ITIMER_VIRTUAL) is inside a library call that does not return: verdict no-return. Scenarios with several windows are also run with the failure confined to ONE window (every window x every k x both modes), so that the state a later window starts from is the one a fault-free prefix leaves; names of pre-existing IPC objects must survive a failed second open.',
  'C19': ' The ipc_new scenario also replaces, in CREATE mode and under the same interruptions, a stale semaphore name made with the platform call (the name must then carry the given value); EINTR is planned at invocations 1..9 of sem_open / shm_open.',
 }
+PROPS['C12'].subs += [Sub('big', 'tree', shards=(8, 12), cases=(1, 1), env={'VERIF_SUB': 'big', 'VERIF_CPU_BUDGET': 900}, timeout=(900, 3600))]
+_ADD6['C12'] += ' Large-tree sub-run: red-black and AVL trees of 65536 and 70001 pairs (thorough: 65535 .. 131079) grown and shrunk in four key patterns, count / full traversal / lookups compared with the model afterwards.'
 PROPS['C20'].subs += [Sub('threads_sched_' + c, 'dsched_' + c, shards=(2, 4), cases=(1500, 15000), maxsize=(60, 100), env={'VERIF_SUB': 'rand'}, timeout=(900, 3600)) for c in ('c11_posix',)]
 PROPS['C20'].subs += [Sub('threads_sched_exh_c11_posix', 'dsched_c11_posix', shards=(2, 4), cases=(1, 1), env={'VERIF_SUB': 'exh'}, timeout=(900, 3600))]
 _ADD6['C20'] = ' Thread-program sub-runs (the generated thread programs and schedules of C05, deterministic scheduler): after every thread was joined or finished, every handle unreferenced and every key released, no library block may remain - under every explored interleaving of first key uses, exits and releases. Thread names of every length 1..44.'
